@@ -295,6 +295,11 @@ def check_C08(ctx):
              threshold=2, interval=2, **OBJ),
     ]
     viols = sim_families(ctx, fams, C08_TAGS, n)
+    # Set-by-index on an element that was moved before: what the known finding KF-ARRAY-SET-MOVED breaks is convergence
+    # under GC, which C08 does not judge - the copy handed to the updater must still equal the document. One editor, guard off.
+    lfams = [dict(name="upd-arr-setmoved", alphabet="OpsArr", clients="Seq2", editors='{"c1"}', feat='{"idle", "fail"}', weight=10, maxedits=8,
+                  guards=["no:KF-ARRAY-SET-MOVED"], **ARR)]
+    viols += sim_families(ctx, lfams, {"UpdateAtomic", "CloneEqRoot"}, n)
     fresh, known = split_known(ctx, viols)
     return "model_checking", fresh, known, mc_cov(ctx), ["memdb backend only"]
 
@@ -336,6 +341,11 @@ def check_C10(ctx):
         dict(name="cmp-nest", alphabet="OpsNest", clients="Seq2", editors=E2, feat=feat, maxsess=3, maxcompact=2, weight=6, maxedits=3, **OBJ),
         dict(name="cmp-snap", alphabet="OpsTxt", clients="Seq3", feat=feat, late='{"c3"}', maxsess=3, maxcompact=2, weight=6, maxedits=3,
              threshold=2, interval=2, **TXT),
+        # a stale client that first syncs push-only (answered without the epoch check) and then normally
+        dict(name="cmp-pushonly", alphabet="OpsCnt", clients="Seq3", feat='{"idle", "compact", "force", "lateattach", "pushonly"}', late='{"c3"}',
+             maxcompact=2, weight=2, maxedits=4, maxsyncs=8, kinds=["n"], init=[]),
+        dict(name="cmp-pushonly-obj", alphabet="OpsObj", clients="Seq2", editors=E2, feat='{"idle", "compact", "force", "pushonly"}',
+             maxcompact=2, weight=4, maxedits=4, maxsyncs=8, **OBJ),
     ]
     viols = sim_families(ctx, fams, C10_TAGS, n)
     if ctx.counters.get("compactions_ok", 0) == 0:
@@ -346,6 +356,55 @@ def check_C10(ctx):
 
 C11_TAGS = {"WriteOnlyWhenActive", "WriteOnlyWhenAttached", "RemovedStoresNothing", "RemovedIsSticky", "DetachTakesEffect",
             "RemoveTakesEffect", "DeactivateDetachesAll", "DeactivateNeverFails", "MinVVNotHeldBack", "RowWritten", "SyncNeverFails"}
+
+
+def life_part(ctx, quick):
+    """C11 small-scope exhaustive half: every (state, call) pair of Lifecycle.tla (valid and invalid calls) through the raw protocol."""
+    import subprocess
+    behs = generate(ctx, "life_gen.cfg", module="Lifecycle", overrides={"MaxLen": "7" if quick else "14"}, workers=1, timeout=900)
+    if len(behs) < 1000:
+        raise Infra("Lifecycle.tla generated only %d behaviours" % len(behs))
+    d = ctx.sub("life")
+    inp = os.path.join(d, "beh.ndjson")
+    with open(inp, "w") as f:
+        for b in behs:
+            f.write(json.dumps(b) + "\n")
+    ps = []
+    for i in range(NCPU):
+        out = os.path.join(d, "trace-%d.ndjson" % i)
+        ps.append((out, subprocess.Popen([ctx.yvh, "life", "-in", inp, "-out", out, "-shard", str(i), "-nshards", str(NCPU)],
+                                         stdout=subprocess.PIPE, stderr=subprocess.PIPE, text=True)))
+    traces = []
+    for out, p in ps:
+        so, se = p.communicate(timeout=3000)
+        if p.returncode != 0:
+            raise Infra("life driver failed: " + se[-2000:])
+        traces.append(out)
+    viols = []
+    seen = set()
+    for v in validate(ctx, traces, module="LifecycleTrace", cfg="life_trace.cfg"):
+        # one report per (tag, call): name the call and the history that led to it
+        calls, cur = [], None
+        with open(v["trace"]) as f:
+            for i, line in enumerate(f, 1):
+                e = json.loads(line)
+                if e["ev"] == "reset":
+                    calls = []
+                else:
+                    calls.append({"op": e["op"], "c": e["c"], "d": e["d"]})
+                if i == v["line"]:
+                    cur = e
+                    break
+        sig = (v["tag"], cur["op"] if cur else "", json.dumps(calls[-3:]))
+        if sig in seen:
+            continue
+        seen.add(sig)
+        viols.append({"property": "C11", "tag": v["tag"], "family": "lifecycle", "behaviour": None, "calls": calls, "event": cur, "errors": [], "seed": ctx.seed})
+    ctx.count("behaviours_executed", len(behs))
+    ctx.count("traces_validated", len(behs))
+    ctx.samples.append({"family": "lifecycle", "state_call_pairs": len(behs), "max_history": 7 if quick else 14,
+                        "exhaustive_over_abstract_states": not quick})
+    return viols
 
 
 def check_C11(ctx):
@@ -360,6 +419,7 @@ def check_C11(ctx):
              late='{"c3"}', maxsess=3, weight=2, kinds=["n"], init=[]),
     ]
     viols = sim_families(ctx, fams, C11_TAGS, n)
+    viols += life_part(ctx, quick)
     fresh, known = split_known(ctx, viols)
     return "model_checking", fresh, known, mc_cov(ctx), ["memdb backend only"]
 
@@ -428,6 +488,11 @@ def check_C09(ctx):
     ufams = [dict(name="enc-undo-txt", alphabet="OpsTxt", clients="Seq2", editors='{"c1"}', feat='{"idle", "undo"}', maxundo=4, maxedits=3, weight=4, **TXT),
              dict(name="enc-undo-tree", alphabet="OpsTree", clients="Seq2", editors='{"c1"}', feat='{"idle", "undo"}', maxundo=4, maxedits=3, weight=4, **TREE)]
     viols += sim_families(ctx, ufams, {"WireTransparent", "SnapshotBytesTransparent", "LogReplayable"}, n)
+    # a Set that carries a whole container with tombstoned members (undo of deleting a nested object). Wire only: undo of an
+    # object Set leaves a stale garbage-registry entry on every change-fed replica (KF-UNDO-REUSED-IDENTITY-GC), which the
+    # snapshot encoding rightly does not carry - the garbage counts differ for that reason, not because of the encoding
+    nfams = [dict(name="enc-undo-nest", alphabet="OpsNest", clients="Seq2", editors='{"c1"}', feat='{"idle", "undo"}', maxundo=4, maxedits=5, weight=6, **OBJ)]
+    viols += sim_families(ctx, nfams, {"WireTransparent", "LogReplayable"}, n)
     # merges, splits, split tickets, merged-from: the tree catalogue's changes and documents through the same round trips
     tv, _ = tree_catalogue(ctx, 4 if quick else 1, {"WireTransparent", "SnapshotBytesTransparent", "LogReplayable"})
     viols += tv
